@@ -108,3 +108,18 @@ Example c10_hypotheses_satisfiable :
 Proof.
   split; [repeat constructor; simpl; lia|]. vm_compute. split; [reflexivity|]. split; [reflexivity|]. eexists. reflexivity.
 Qed.
+
+
+(* The wheel's key index (SafeMap: two generations, deletion counters, compaction) behaves as a plain map:
+   after ANY history of Put/Del and for ANY values of the two thresholds, Get answers like the association map.
+   This discharges the "SafeMap behaves as a map" assumption of the wheel model. *)
+From God Require C10.SafeMap.
+Theorem c10_safemap_refines_map : forall maxd copyt ops k,
+  SafeMap.sm_get (SafeMap.sm_run maxd copyt ops) k = SafeMap.look k (SafeMap.spec_run ops).
+Proof. exact SafeMap.safemap_refines_map. Qed.
+Print Assumptions c10_safemap_refines_map.
+
+Example c10_safemap_compaction_reached :
+  let s := SafeMap.sm_run 2 2 [SafeMap.SPut 1 10; SafeMap.SPut 2 20; SafeMap.SChurn 100 3; SafeMap.SPut 7 70; SafeMap.SDel 1] in
+  SafeMap.sm_get s 7%N = Some 70%N /\ SafeMap.sm_get s 2%N = Some 20%N /\ SafeMap.new s = [] /\ SafeMap.del_old s = 0%N.
+Proof. vm_compute. repeat split. Qed.
